@@ -166,6 +166,14 @@ def _roundtrip(impl, m, f, clause, viol, hexin):
         return e
     if f2 != f:
         viol.append((clause, "mismatch:%s" % _field_diff(f2, f), hexin, "decode(encode(m)) differs from m in %s: %r vs %r" % (_field_diff(f2, f), f2, f)))
+    else:
+        # the serialised forms agree; so must the typed values the application sees
+        try:
+            v, v2 = impl.values(m), impl.values(m2)
+        except Exception:
+            v = v2 = None
+        if v != v2:
+            viol.append((clause, "mismatch:values", hexin, "decode(encode(m)) has option values %r, m has %r" % (v2, v)))
     return e
 
 
@@ -176,7 +184,7 @@ def dec_chunk(chunk):
     global _udp
     impl = _impl
     viol = []
-    cnt = {"dec": 0, "wf": 0, "rejected_by_impl": 0, "lenient_parse": 0, "udp": 0, "udp_dropped": 0, "udp_dispatched": 0, "reserialised": 0, "drift": [], "oracle_disagreements": [], "classes": {}}
+    cnt = {"dec": 0, "wf": 0, "rejected_by_impl": 0, "lenient_parse": 0, "udp": 0, "udp_dropped": 0, "udp_dispatched": 0, "reserialised": 0, "exact_fields_demanded": 0, "drift": [], "oracle_disagreements": [], "classes": {}}
     for d, raw, do_udp in chunk:
         tv = json.loads(raw)
         cls, reser = tv[2], tv[-1]
@@ -198,6 +206,11 @@ def dec_chunk(chunk):
             cnt["oracle_disagreements"].append(d[:64].hex())
         hexin = d.hex() if len(d) <= 4096 else "len=%d:%s.." % (len(d), d[:24].hex())
         wf = cls[0] == "wf"
+        # "ctlchars": well-formed framing and UTF-8, a string value with control
+        # characters.  Rejecting it stays admissible; a parser that accepts it
+        # has read a well-formed datagram and owes the RFC's fields and the
+        # identical re-serialisation (notes/C01.md, judgement on control characters)
+        exact = wf or cls[0] == "ctlchars"
         cnt["wf"] += wf
         outcome = None
         f = None
@@ -218,7 +231,8 @@ def dec_chunk(chunk):
             except Exception as ex:
                 viol.append(("C01_RoundTrip" if wf else "C01_ParsedRoundTrips", "fields:%s|%s" % (type(ex).__name__, L.exc_origin(ex)), hexin, "cannot read back the parsed message: %r" % ex))
             if f is not None:
-                if wf:
+                if exact:
+                    cnt["exact_fields_demanded"] += 1
                     exp = (cls[1], cls[2], cls[3], bytes(cls[4]), None, bytes(cls[6]))
                     got = (f[0], f[1], f[2], f[3], None, f[5])
                     if got != exp:
@@ -228,7 +242,7 @@ def dec_chunk(chunk):
                 else:
                     cnt["lenient_parse"] += 1
                 e = _roundtrip(impl, m, f, "C01_RoundTrip" if wf else "C01_ParsedRoundTrips", viol, hexin)
-                if wf and reser and e is not None:
+                if exact and reser and e is not None:
                     cnt["reserialised"] += 1
                     if e != d:
                         viol.append(("C01_EncodeBytes", "mismatch:reserialise", hexin, "encode(decode(d)) = %s differs from d although the format is a bijection here" % e[:64].hex()))
@@ -288,6 +302,13 @@ def enc_chunk(chunk):
             continue
         if f2 != key:
             viol.append(("C01_RoundTrip", "mismatch:%s" % _field_diff(f2, key), desc, "decode(encode(m)) = %r, m = %r" % (f2 if len(repr(f2)) < 600 else "...", key if len(repr(key)) < 600 else "...")))
+        else:
+            try:
+                v, v2 = impl.values(msg), impl.values(m2)
+            except Exception:
+                v = v2 = None
+            if v != v2:
+                viol.append(("C01_RoundTrip", "mismatch:values", desc, "decode(encode(m)) has option values %s, m has %s" % (repr(v2)[:300], repr(v)[:300])))
     return viol, cnt
 
 
@@ -384,7 +405,7 @@ def work(rep, args):
             if cls[0] == "wf" and len(cls[5]) >= 2 and not encflag:
                 model_ok.append(b)
             if encflag:
-                if cls[0] not in ("wf", "emptyplus"):
+                if cls[0] not in ("wf", "emptyplus", "ctlchars"):
                     raise MachineryError("model message state not classified well-formed: %r" % (cls,))
                 m = (cls[1], cls[2], cls[3], bytes(cls[4]), [(e[0], bytes(e[1])) for e in cls[5]], bytes(cls[6]))
                 enc_cases.append((m, b))
@@ -397,7 +418,7 @@ def work(rep, args):
 
         # ---- 2. messages: boundary sweep, huge values, seeded random ----------------
         L.check_unicode_samples()
-        msgs = L.boundary_messages(impl) + L.unicode_messages(impl) + L.huge_messages()
+        msgs = L.boundary_messages(impl) + L.unicode_messages(impl) + L.uint_messages(impl) + L.huge_messages()
         nrand = 1500 if quick else 20000
         msgs += [L.gen_message(rng, impl) for _ in range(nrand)]
         seen = set()
@@ -507,6 +528,7 @@ def work(rep, args):
                 "rejected_by_impl": total.get("rejected_by_impl", 0),
                 "lenient_parses_roundtripped": total.get("lenient_parse", 0),
                 "reserialised_identically": total.get("reserialised", 0),
+                "exact_fields_demanded": total.get("exact_fields_demanded", 0),
                 "udp_path_datagrams": total.get("udp", 0),
                 "udp_dropped": total.get("udp_dropped", 0),
                 "udp_dispatched": total.get("udp_dispatched", 0),
